@@ -1770,6 +1770,11 @@ def run(ctx):
         "spaces, quotes, CSS forms and malformed strings are covered by the feature-parse correspondence only",
         "shapers with their own feature hooks (Arabic, Indic, USE, …) add features through the same builder; their op lists are not "
         "modelled (map-compile drives the builder with arbitrary op lists instead)",
+        "C14_reverse_lookup_respects_mask / _acts_inside_range are about the lookup-interpreter model Gsub.lean (apply_string → "
+        "apply_backward, ReverseChainSingleSubst); FeatureGsub.lean composes the feature map model with that interpreter (default "
+        "shaper, LTR, private-use text, every GSUB lookup type) and is tied to the public shape() by the feature-shape-gsub "
+        "correspondence; that the forward driver honours the masks for lookup types 2 and 4-6 is checked by that correspondence and "
+        "by the feature-shape-typed search against Spec/OpenTypeSubst.lean, not proved",
     ]
     ctx.regen()
     ctx.prove(MODULE)
